@@ -36,6 +36,16 @@ CHECKS = {
    "TLC proves Parse(Print(r)) = r and the short-form defaults on the specification, explores every Add/Del/Suspend/Reactivate/SaveLoad history of a bounded rule list and defines, from the documentation, what each rule form must inject, show and report at which tick; the real parser/printer, the real rule list and the real simulator binary are replayed against that, so a wrong tick comparison, a mis-resolved object, a lost valid side effect or a suspended rule that still acts is rejected at the iteration where it shows.",
    "Effects are judged on one machine (free-running counter with a handshaked output) for 14 iterations, both run-ending modes, with set targets the machine never writes; the rule-free reference trace comes from the real VM. Seven scenario/mode combinations fail on the pinned tree for four genuine reasons (periodic set, event gets, on-exit on exhaustion) and are listed in known_findings.json. onrecv rules are checked for print/parse only (no simulator path consumes them and the property does not list them).",
    "DESIGN.md §4 C15", "bmverif"),
+ "C09": ("model_checking",
+   "TLA+ spec BMSimSched (coordinator/worker goroutines over unbuffered channels, opcode singletons) model-checked by TLC for all interleavings (deadlock freedom, refinement of the per-tick barrier BMSimBarrier, Deterministic); real simulations recorded through verif hooks under seeded schedule perturbation, GOMAXPROCS 1..16, alone and concurrently, built with -race; event logs and per-tick state digests trace-validated by TLC",
+   "TLC explores every interleaving of the token/id/result rendezvous for 1-2 simulations of 2-3 processors and proves the barrier and the independence of the result from the interleaving on the model; the real goroutines are observed at the same points, their logs must be behaviours of the barrier spec and the digest of the full VM state after every tick must equal that of the same simulation run alone, and any race report fails the run — so shared mutable state between workers or simulations, or a broken barrier, is caught even when a single run looks correct.",
+   "Schedules are perturbed (yields/sleeps from a seed at every hook point) and GOMAXPROCS varied, not enumerated, on the real code; 4 machines (handshaked pipeline, 3 independent arithmetic processors, 1- and 2-processor machines over the pipelined opcodes), 40 ticks (120 thorough), 3 (12) repetitions of 10 run groups per GOMAXPROCS value. Trusted: TLC, the Go race detector, the hooks (5 one-line call sites).",
+   "DESIGN.md §4 C09", "bmverif"),
+ "C17": ("model_checking",
+   "TLA+ spec BMSimLife (launch/finish/exit lifecycle of the simulator's goroutines; as coded and with an exit path) model-checked by TLC; goroutine profiles sampled after series of real single-shot simulations and assemblies, trace-validated by TLC against the bound",
+   "The lifecycle model shows which design has the Released/Bounded properties; the real process is then measured: after 1, 5, 25 (100, 400) sequential and concurrent calls of SinglePipelineSimulate / Fitness_default / the assembler, the number of live goroutines (grouped by creating function) must stay within a constant of the number before the first call, which a leak per call cannot satisfy whatever the release mechanism is.",
+   "Bound: 3 goroutines above the pre-series count after a settle period (GC + yields). The assembler's requirement-server leak is a recorded known finding. Trusted: runtime.Stack profile parsing.",
+   "DESIGN.md §4 C17", "bmverif"),
 }
 NOT_APPLICABLE = {
  "C18": "static well-formedness of generated Verilog text (parse/lint judgement): no state, transitions or behaviour for a TLA+ specification to decide; see DESIGN.md §5",
